@@ -194,7 +194,7 @@ impl Run {
             "lstTimer": s.sock_backoff.iter().zip(s.sock_expired.iter())
                 .map(|(b, e)| if *e { 1 } else if *b { 2 } else { 0 }).collect::<Vec<_>>(),
             "timeoutSet": s.timeout_ms >= 0,
-            "timeoutMs": s.timeout_ms, "lstRemain": s.sock_remain_ms,
+            "timeoutMs": s.timeout_ms, "lstRemain": s.sock_remain_ms, "wwoken": s.wwoken,
             "pathOk": s.uds_path,
             "errq": self.injected,
             "connRefused": (0..ncl).any(|c| !s.connected[c]),
